@@ -56,7 +56,13 @@ BUILTIN_FUNCS = {"len", "hash", "frozenset", "abs", "iter", "list", "tuple", "se
                  "isinstance", "any", "all", "sum", "next", "id", "round", "divmod", "pow", "setattr", "super", "object"}
 
 
+class BodyException(Exception):
+    """Stands for an arbitrary exception raised by the body of a with-block."""
+
+
 def exc_real(name):
+    if name == "BodyException":
+        return BodyException
     if hasattr(builtins, name):
         return getattr(builtins, name)
     errs = importlib.import_module("pint.errors")
@@ -209,6 +215,20 @@ class Exec:
         if self._is_dropped_call(s.value):
             yield Outcome("normal", st)
             return
+        if isinstance(s.value, ast.Yield):
+            # generator used as a context manager (@contextmanager): at the yield the with-body runs; it
+            # either completes or raises an arbitrary exception, which is thrown into the generator here.
+            for st1, v in (self.ev(s.value.value, st) if s.value.value is not None else [(st, NONEV)]):
+                self.yields = getattr(self, "yields", 0) + 1
+                st1.ghost = dict(st1.ghost)
+                st1.ghost["__yielded__"] = boolv(True)
+                bad = st1.copy()
+                bad.trace.append(f"L{s.lineno}: with-body raises")
+                bad.ghost["__body_raised__"] = boolv(True)
+                self.sink_raise(bad, ExcVal("BodyException", [], s), s)
+                st1.trace.append(f"L{s.lineno}: with-body completes")
+                yield Outcome("normal", st1)
+            return
         for st1, _ in self.ev(s.value, st):
             yield Outcome("normal", st1)
 
@@ -228,14 +248,42 @@ class Exec:
     def st_Global(self, s, st):
         raise Unsupported("global statement")
 
+    def _typed_empty(self, target, v, st):
+        """typed container construction:  name = defaultdict(int) / {} / [] / set()  with the type from the contract"""
+        if not (isinstance(target, ast.Name) and target.id in self.c.local_types):
+            return False
+        t = self.c.local_types[target.id]
+        empty = (isinstance(v, ast.Call) and not v.keywords and isinstance(v.func, ast.Name)
+                 and ((v.func.id == "defaultdict" and len(v.args) == 1) or (v.func.id in ("dict", "list", "set", "udict") and not v.args))) \
+            or (isinstance(v, (ast.Dict, ast.List)) and not (getattr(v, "keys", None) or getattr(v, "elts", None)))
+        if not (empty and isinstance(t, (TDict, TList, TSet))):
+            return False
+        r = st.new_ref("loc")
+        out = Val(t, r)
+        if isinstance(t, TDict):
+            heapops.dict_set_contents(st.heap, out, z3.K(t.ksort(), z3.BoolVal(False)),
+                                      [z3.K(t.ksort(), d) for d in t.v.default_terms()])
+        elif isinstance(t, TList):
+            heapops.list_write(st.heap, out, z3.Empty(z3.SeqSort(t.e.sort())))
+        else:
+            heapops.set_write(st.heap, out, z3.K(t.e.sort(), z3.BoolVal(False)))
+        st.env[target.id] = out
+        return True
+
     def st_AnnAssign(self, s, st):
         if s.value is None:
+            yield Outcome("normal", st)
+            return
+        if self._typed_empty(s.target, s.value, st):
             yield Outcome("normal", st)
             return
         for st1, v in self.ev(s.value, st):
             yield from self.assign(s.target, v, st1)
 
     def st_Assign(self, s, st):
+        if len(s.targets) == 1 and self._typed_empty(s.targets[0], s.value, st):
+            yield Outcome("normal", st)
+            return
         for st1, v in self.ev(s.value, st):
             if len(s.targets) == 1:
                 yield from self.assign(s.targets[0], v, st1)
@@ -384,7 +432,10 @@ class Exec:
                         his = [(st2, None)] if tgt.slice.upper is None else list(self.ev(tgt.slice.upper, st2))
                         for st3, hi in his:
                             lo_t = spec.clip_index(lo.v, n) if lo is not None else z3.IntVal(0)
-                            hi_t = spec.clip_index(hi.v, n) if hi is not None else n
+                            if hi is not None and isinstance(hi.t, TOpt):
+                                hi_t = z3.If(hi.v[0], n, spec.clip_index(hi.v[1].v, n))
+                            else:
+                                hi_t = spec.clip_index(hi.v, n) if hi is not None else n
                             hi_t = z3.If(hi_t < lo_t, lo_t, hi_t)
                             new = z3.Concat(z3.SubSeq(seq, 0, lo_t), z3.SubSeq(seq, hi_t, n - hi_t))
                             heapops.list_write(st3.heap, base, new)
@@ -937,6 +988,30 @@ class Exec:
             return
         if not isinstance(a, Val) or not isinstance(b, Val):
             raise Unsupported(f"operator on {a}, {b}")
+        for which, x in (("a", a), ("b", b)):
+            if isinstance(x.t, TUnion):
+                idx = [i for i, al in enumerate(x.t.alts) if isinstance(al, (TNum, TInt))
+                       or (isinstance(al, TOpt) and isinstance(al.inner, (TNum, TInt)))]
+                if len(idx) == 1:
+                    for st1 in self.guard_exc(st, x.v[0] == idx[0], "TypeError", node):
+                        if which == "a":
+                            yield from self.binop(op, x.v[1][idx[0]], b, st1, node)
+                        else:
+                            yield from self.binop(op, a, x.v[1][idx[0]], st1, node)
+                    return
+            if isinstance(x.t, TOpt) and isinstance(x.t.inner, (TNum, TInt)):
+                for st1 in self.guard_exc(st, z3.Not(x.v[0]), "TypeError", node):
+                    if which == "a":
+                        yield from self.binop(op, x.v[1], b, st1, node)
+                    else:
+                        yield from self.binop(op, a, x.v[1], st1, node)
+                return
+        if isinstance(op, ast.Add) and isinstance(a.t, TList) and isinstance(b.t, TList) and a.t == b.t:
+            r = st.new_ref("list")
+            out = Val(a.t, r)
+            heapops.list_write(st.heap, out, z3.Concat(heapops.list_seq(st.heap, a), heapops.list_seq(st.heap, b)))
+            yield st, out
+            return
         if isinstance(op, (ast.Div, ast.FloorDiv, ast.Mod)) and is_numeric(a) and is_numeric(b):
             nz = to_real(b) != 0
             for st1 in self.guard_exc(st, nz, "ZeroDivisionError", node):
